@@ -121,10 +121,11 @@ DebugRejected(fields) == Len(DebugTransparent(fields)) > 1
 (*   kinds of #[default(e)] expressions and what the field must record:    *)
 (***************************************************************************)
 \* Into is applied exactly for a string literal or a path
-NeedsInto(kind) == kind \in {"str", "path", "assoc_path", "into_path"}
+NeedsInto(kind) == kind \in {"str", "empty_str", "path", "assoc_path", "into_path"}
 FieldDefault(f) ==
     CASE f.dv = "none"       -> "default()"          \* no attribute, or #[default(_)] / #[default]
       [] f.dv = "str"        -> "from_str:abc"       \* #[default("abc")]            -> Into
+      [] f.dv = "empty_str"  -> "from_str:"          \* #[default("")]: a string literal like any other -> Into
       [] f.dv = "path"       -> "from_src:7"         \* #[default(SRC7)] (a Src)     -> Into
       [] f.dv = "assoc_path" -> "from_src:3"         \* #[default(Holder::SRC3)]     -> Into
       [] f.dv = "into_path"  -> "into_srci:8"        \* #[default(SRCI8)]: a type with a hand-written Into<Field> only (no From)
